@@ -55,8 +55,11 @@ def parse(
     source_code: bytes | str, source_path: Path | str | None = None
 ) -> NixSourceCode:
     """Parse Nix source code and return the root of its AST."""
-    node = parse_to_ast(source_code=source_code)
-    source = NixSourceCode.from_cst(node)
+    code_bytes = (
+        source_code.encode("utf-8") if isinstance(source_code, str) else source_code
+    )
+    node = parse_to_ast(source_code=code_bytes)
+    source = NixSourceCode.from_cst(node, source_bytes=code_bytes)
     if source_path:
         source.source_path = Path(source_path)
     return source
